@@ -121,12 +121,17 @@ func minMaxDist(p geom.Point, r *geom.Bounds) float64 {
 // boxMinMaxDist is the square root of minMaxDist, computed without squaring
 // (see boxDist). It is never smaller than boxDist of the same arguments.
 func boxMinMaxDist(p geom.Point, r *geom.Bounds) float64 {
+	// The nearer face is chosen by comparing the two distances themselves.
+	// (Comparing p with the midpoint Min/2+Max/2 fails for boxes a few ulps
+	// wide: the midpoint is rounded onto one of the faces, the nearer face
+	// is taken for the farther one, the result comes out too small - even
+	// zero - and the branch holding the nearest object is pruned.)
 	nearX, farX := r.Min.X, r.Max.X
-	if p.X > r.Min.X/2+r.Max.X/2 {
+	if math.Abs(p.X-r.Max.X) < math.Abs(p.X-r.Min.X) {
 		nearX, farX = r.Max.X, r.Min.X
 	}
 	nearY, farY := r.Min.Y, r.Max.Y
-	if p.Y > r.Min.Y/2+r.Max.Y/2 {
+	if math.Abs(p.Y-r.Max.Y) < math.Abs(p.Y-r.Min.Y) {
 		nearY, farY = r.Max.Y, r.Min.Y
 	}
 	return math.Min(math.Hypot(p.X-nearX, p.Y-farY), math.Hypot(p.Y-nearY, p.X-farX))
